@@ -2,7 +2,10 @@
 
 Everything is computed over an exact field: ``fractions.Fraction`` for real
 resistances and the Gaussian rationals ``CQ`` for complex impedances.  No
-numpy, no pseudo-inverse, no code shared with pyunicorn.
+numpy, no pseudo-inverse, no code shared with pyunicorn.  (Only `np_model` at
+the end - the float64 reference of the `scale` family for networks too large
+for rational elimination - uses numpy; it solves the grounded Laplacian and
+is held to the rational model by `selfcheck_np`.)
 
 Conventions read off the docstrings of ``ResNetwork`` (each reproduced once on
 the docstring example, see ``selfcheck``):
@@ -304,6 +307,11 @@ def foster_sum(n, links, er=None):
 # structured families
 
 
+def chain(n):
+    """Series chain of n nodes with unit resistors."""
+    return series([1] * (n - 1))
+
+
 def series(rs):
     """Chain 0-1-...-k with resistances rs."""
     return len(rs) + 1, {(i, i + 1): r for i, r in enumerate(rs)}
@@ -440,4 +448,109 @@ def selfcheck():
         erp = effective_resistance_matrix(n, relabel(n, lk, perm))
         assert all(erp[perm[a]][perm[b]] == er[a][b]
                    for a in range(n) for b in range(n))
+    return True
+
+
+# ---------------------------------------------------------------------------
+# larger structured networks (the `scale` family) and a float64 reference for
+# sizes where the rational solver gets slow.  numpy is used only below; the
+# float64 reference solves the *grounded* Laplacian with numpy.linalg.solve
+# (the library takes the pseudo-inverse of the full one) and is held to the
+# rational model on every network <= 23 nodes it is used on.
+
+
+def _pattern(pairs_):
+    vals = [Fraction(1, 2), Fraction(1), Fraction(2)]
+    return {(i, j): vals[(i + 2 * j) % 3] for (i, j) in pairs_}
+
+
+def ring_chords(n):
+    """Ring 0-1-...-(n-1)-0 plus chords i -- i+n//3 for every third i and
+    two links touching the highest-numbered nodes."""
+    pr = set()
+    for i in range(n):
+        pr.add(tuple(sorted((i, (i + 1) % n))))
+    for i in range(0, n, 3):
+        pr.add(tuple(sorted((i, (i + n // 3) % n))))
+    pr.add(tuple(sorted((n - 1, n // 2))))
+    pr.add(tuple(sorted((n - 2, 1))))
+    pr = {p for p in pr if p[0] != p[1]}
+    return n, _pattern(sorted(pr))
+
+
+def heap_tree(n):
+    """Binary tree in heap order (bipartite, many leaves)."""
+    return n, _pattern([((i - 1) // 2, i) for i in range(1, n)])
+
+
+def ladder_tail(n):
+    """2 x (n//2) ladder; an odd n hangs one more node on the last one."""
+    k = n // 2
+    m, links = ladder(k)
+    pr = sorted(links)
+    if n % 2:
+        pr.append((2 * k - 1, 2 * k))
+    return n, _pattern(pr)
+
+
+def np_model(n, links):
+    """float64 reference: effective resistances, centred Green's function
+    magnitude, vertex / edge current flow betweenness, admittive measures."""
+    import numpy as np
+    Y = np.zeros((n, n))
+    for (i, j), r in links.items():
+        Y[i, j] = Y[j, i] = 1.0 / float(r)
+    L = np.diag(Y.sum(axis=1)) - Y
+    G = np.zeros((n, n))
+    G[:n - 1, :n - 1] = np.linalg.solve(L[:n - 1, :n - 1], np.eye(n - 1))
+    d = np.diag(G)
+    ER = d[:, None] + d[None, :] - G - G.T
+    Gc = G - G.mean(axis=0, keepdims=True) - G.mean(axis=1, keepdims=True) \
+        + G.mean()
+    E = np.zeros((n, n))
+    vc = np.zeros(n)
+    for t in range(n):
+        for s in range(t):
+            v = G[:, s] - G[:, t]
+            F = Y * np.abs(v[:, None] - v[None, :])
+            E += F
+            cur = F.sum(axis=1) / 2.0
+            cur[s] = cur[t] = 0.0
+            vc += cur
+    norm = 2.0 / (n * (n - 1))
+    ad = Y.sum(axis=1)
+    A = (Y != 0).astype(float)
+    deg = A.sum(axis=1)
+    tri = np.einsum("ij,ik,jk->i", Y, Y, Y)
+    lac = np.where(deg > 1, tri / (ad * np.maximum(deg - 1, 1)), 0.0)
+    return {"ER": ER, "rmax": float(np.max(np.abs(Gc))), "Y": Y, "pinv": Gc,
+            "vcfb": vc * norm, "ecfb": E * norm, "ad": ad,
+            "anad": (A @ ad) / ad, "lac": lac}
+
+
+def selfcheck_np():
+    import numpy as np
+    for n, lk in (ring_chords(9), heap_tree(12), ladder_tail(9),
+                  ring_chords(12)):
+        m = np_model(n, lk)
+        er = effective_resistance_matrix(n, lk)
+        assert np.allclose(m["ER"], [[float(x) for x in r] for r in er],
+                           rtol=1e-11, atol=1e-12)
+        assert np.allclose(m["vcfb"], [float(x) for x in vertex_cfb(n, lk)],
+                           rtol=1e-10, atol=1e-12)
+        assert np.allclose(m["ecfb"], [[float(x) for x in r]
+                                       for r in edge_cfb(n, lk)],
+                           rtol=1e-10, atol=1e-12)
+        assert np.allclose(m["lac"], [float(x) for x in
+                                      local_admittive_clustering(n, lk)])
+        assert np.allclose(m["anad"], [float(x) for x in
+                                       avg_neighbours_admittive_degree(n, lk)])
+        assert foster_sum(n, lk, er) == n - 1
+        # the centred Green's function is the Moore-Penrose inverse of L
+        Lp = np.diag(m["Y"].sum(axis=1)) - m["Y"]
+        P = m["pinv"]
+        assert np.allclose(Lp @ P @ Lp, Lp, atol=1e-10)
+        assert np.allclose(P @ Lp @ P, P, atol=1e-10)
+        assert np.allclose(P, P.T, atol=1e-12)
+        assert np.allclose(P.sum(axis=0), 0, atol=1e-10)
     return True
